@@ -23,7 +23,29 @@ def templates(h):
     return ['<%s>' % h, 'x<%s>y<%s>' % (h, h), '<' + h, h + '>', '<<%s>>' % h, '<x> <%s x>' % h, 'a.b (c) [d] $1 \\1 \\g<0> ' + h]
 
 
-def outline_ast(headers, rows, tpl, bg_text):
+TARGETS = ('name', 'text', 'cell', 'content', 'media')
+
+
+def outline_ast(headers, rows, tpl, bg_text, only=None):
+    """only: None = the template in every target; else the template in that single target and plain text elsewhere."""
+    ast = _outline_ast(headers, rows, tpl, bg_text)
+    if only is not None:
+        sc = ast['feature']['children'][1]['scenario']
+        plain = 'plain'
+        if only != 'name':
+            sc['name'] = plain
+        if only != 'text':
+            sc['steps'][0]['text'] = plain
+        if only != 'cell':
+            sc['steps'][0]['dataTable']['rows'][0]['cells'][0]['value'] = plain
+        if only != 'content':
+            sc['steps'][1]['docString']['content'] = plain
+        if only != 'media':
+            sc['steps'][1]['docString']['mediaType'] = plain
+    return ast
+
+
+def _outline_ast(headers, rows, tpl, bg_text):
     def cell(v, n):
         return {'location': {'line': n, 'column': 1}, 'value': v}
     steps = [
@@ -79,11 +101,15 @@ def check_ast(ast, acc, case):
     return True
 
 
-def run_case(headers, rows, tpl, acc):
+def run_case(headers, rows, tpl, acc, single_targets=False):
     bg_text = 'bg ' + tpl
     ast = outline_ast(headers, rows, tpl, bg_text)
     case = {'kind': 'ast', 'ast': ast, 'headers': headers, 'rows': rows, 'template': tpl}
     ok = check_ast(ast, acc, case)
+    if single_targets:
+        for only in TARGETS:
+            a2 = outline_ast(headers, rows, tpl, 'bg', only=only)
+            check_ast(a2, acc, {'kind': 'ast', 'ast': a2, 'headers': headers, 'rows': rows, 'template': tpl, 'only': only})
     want = subst(tpl, headers, rows[0])
     if want != tpl:
         acc.nontrivial += 1
@@ -102,9 +128,9 @@ def job_single(first, hlen, vlen):
     if first == 0:
         heads.insert(0, '')           # the empty header cell: placeholder '<>'
     for h in heads:
-        for tpl in templates(h) + ['x <%s> y' % h, '<%s>' % h * 3]:
+        for ti, tpl in enumerate(templates(h) + ['x <%s> y' % h, '<%s>' % h * 3]):
             for v in vals:
-                run_case([h], [[v]], tpl, acc)
+                run_case([h], [[v]], tpl, acc, single_targets=(ti == 0 and len(v) <= 1))
         last = h
     acc.sample({'headers': [last], 'rows': [[vals[-1]]], 'template': templates(last)[1]})
     return acc
